@@ -22,6 +22,14 @@ for f in sorted(glob.glob(os.path.join(ROOT, "seeded", "C*", "meta.json"))):
         m["id"], (m.get("summary") or "")[:140].replace("|", "/"), (m.get("needs") or "")[:110].replace("|", "/"),
         ", ".join(caught) or "-", ", ".join(missed) or "-", m.get("demo_unchanged_exit"), m.get("demo_changed_exit"),
         "suite passes" if "100% tests passed" in suite else suite[:30]))
-print("| seed | change | needs | caught by | not caught by | confirmation |")
-print("|---|---|---|---|---|---|")
-print("\n".join(rows))
+import sys
+table = "| seed | change | needs | caught by | not caught by | confirmation |\n|---|---|---|---|---|---|\n" + "\n".join(rows)
+if "--design" in sys.argv:
+    # regenerate the block between the markers of DESIGN.md section 11.5
+    dp = os.path.join(ROOT, "DESIGN.md")
+    d = open(dp).read()
+    a, b = "<!-- seed-table:begin -->", "<!-- seed-table:end -->"
+    i, j = d.index(a) + len(a), d.index(b)
+    open(dp, "w").write(d[:i] + "\n" + table + "\n" + d[j:])
+else:
+    print(table)
